@@ -15,7 +15,7 @@ RULE = (
     "renamed injectively (prediction and reference independently; jointly for matched input) into the classes {1..5, "
     "250..255, 256..300, 65530..65535, 65536..70000, 2^24-8..2^24-1 (<=6 % of cases)} and stored in any unsigned dtype "
     "wide enough (signed dtypes too for semantic input); all input types; threshold, many-to-one and merge matchers; "
-    "optional decision metric; global metrics {DSC, IOU}. Oracle (metamorphic): the complete observation (to_dict + "
+    "optional decision metric; global metrics {DSC, IOU}. A second family: semantic 1-D maps with 3-300 one-voxel components per side whose single label and dtype change (1/3/200/255 in uint8/int16 -> 1..70000 in any dtype): counts equal the construction and the two results are identical. Oracle (metamorphic): the complete observation (to_dict + "
     "per-TP tuples as multiset) of the transformed run equals the base run whenever the reference model says the "
     "matching is uniquely determined; otherwise only tie-independent fields (reference instance count, global metrics). "
     "Non-trivial: tp>0 in the base run and the renaming leaves the class {1..5}; distinct = distinct canonical case."
